@@ -189,6 +189,14 @@ def run(R):
         ob = build(True)
         ob.fallback = lambda b=build: b(False)
         R._add(ob)
+        # acos(x) + asin(x) in {floor, ceil}(pi/2 * 65536) on the piece and on its mirror image (both evaluated for real)
+        for sgn in (1, -1):
+            xs = x if sgn == 1 else -x
+            cA, cC = R.call(h, "asin", [xs], opts=o), R.call(h, "acos", [xs], opts=o)
+            sm = cA.out + cC.out
+            R.verify("acos/complement/[%d,%d]%s" % (lo_, hi_, "" if sgn == 1 else "/mirrored"), ins, [cA, cC], dom,
+                     z3.Or(sm == val(lo), sm == val(lo + 1)), portfolio=("z3",), timeout=300 if R.quick() else 900,
+                     note="|acos(x) - (pi/2 - asin(x))| <= 1 ulp on the piece%s" % ("" if sgn == 1 else " mirrored to [-1, 0]"))
         # monotone: asin_impl(x) <= asin_impl(x+1) for every x of the piece (x+1 <= 65536); two polynomial evaluations
         # are compared, so the 256-value pieces of the stub branch are quartered
         if lo_ < ONE:
